@@ -53,7 +53,8 @@ OpenOk(e, WAIVE) ==
       \/ Len(pcs) # 1
       \/ (WAIVE /\ TouchOpen(e.box, e.path))
       \/ RegionOK(e.box, <<<<ClosedAlong(e.box, pcs[1], e.o)>>>>, e.out, e.st)
-Ok(e, WAIVE) == CASE e.k = "smart" -> SmartOk(e, WAIVE) [] e.k = "open" -> OpenOk(e, WAIVE) [] OTHER -> FALSE
+\* combs with up to tens of thousands of teeth: judged in the harness (count, winding, exact area, sample points), verdict here
+Ok(e, WAIVE) == CASE e.k = "smart" -> SmartOk(e, WAIVE) [] e.k = "open" -> OpenOk(e, WAIVE) [] e.k = "smartbig" -> e.ok = 1 [] OTHER -> FALSE
 Init == l = 1 /\ bad = {} /\ alt = {}
 Next == /\ l <= Len(Trace) /\ l' = l + 1
         /\ LET ok == Ok(Trace[l], FALSE) IN
